@@ -28,6 +28,10 @@ pub struct Case {
     /// step and by full snapshot only at its end (tens of thousands of steps stay affordable)
     #[serde(default)]
     pub prefix: Option<(Op, usize)>,
+    /// how the builder comes into being: 0 = DigitString::new(), 1 = Default::default(),
+    /// 2 = what std::mem::take leaves behind in place of a used builder
+    #[serde(default)]
+    pub birth: u8,
     pub ops: Vec<Op>,
 }
 
@@ -494,7 +498,7 @@ impl Check for C12 {
             let _ = model.apply(&op);
             ops.push(op);
         }
-        Case { prefix, ops }
+        Case { prefix, birth: *rng.pick(&[0u8, 0, 1, 2]), ops }
     }
 
     fn execute(&self, case: &Case, stats: &mut Stats) -> RunResult {
@@ -512,7 +516,19 @@ impl Check for C12 {
                 }),
             }
         };
-        let mut ds = DigitString::new();
+        let mut ds = match case.birth {
+            1 => DigitString::default(),
+            2 => {
+                let mut used = DigitString::new();
+                let _ = used.put(b"42");
+                used.freeze();
+                used.flags = 7;
+                let taken = std::mem::take(&mut used);
+                drop(taken);
+                used
+            }
+            _ => DigitString::new(),
+        };
         if let Some((op, k)) = &case.prefix {
             for step in 0..*k {
                 let m = model.apply(op);
@@ -656,27 +672,30 @@ impl Check for C12 {
     fn shrink(&self, case: &Case) -> Vec<Case> {
         let mut out = vec![];
         let n = case.ops.len();
+        if case.birth != 0 {
+            out.push(Case { birth: 0, ..case.clone() });
+        }
         if let Some((op, k)) = &case.prefix {
-            out.push(Case { prefix: None, ops: case.ops.clone() });
+            out.push(Case { prefix: None, birth: case.birth, ops: case.ops.clone() });
             if !case.ops.is_empty() {
-                out.push(Case { prefix: case.prefix.clone(), ops: vec![] });
+                out.push(Case { prefix: case.prefix.clone(), birth: case.birth, ops: vec![] });
             }
             // bisect the length of the run
             for k2 in [k / 2, k - k / 4, k - k / 16, k - k / 256, k.saturating_sub(1)] {
                 if k2 > 0 && k2 < *k {
-                    out.push(Case { prefix: Some((op.clone(), k2)), ops: case.ops.clone() });
+                    out.push(Case { prefix: Some((op.clone(), k2)), birth: case.birth, ops: case.ops.clone() });
                 }
             }
         }
         // drop halves, then single operations
         if n > 2 {
-            out.push(Case { prefix: case.prefix.clone(), ops: case.ops[n / 2..].to_vec() });
-            out.push(Case { prefix: case.prefix.clone(), ops: case.ops[..n / 2].to_vec() });
+            out.push(Case { prefix: case.prefix.clone(), birth: case.birth, ops: case.ops[n / 2..].to_vec() });
+            out.push(Case { prefix: case.prefix.clone(), birth: case.birth, ops: case.ops[..n / 2].to_vec() });
         }
         for i in 0..n {
             let mut ops = case.ops.clone();
             ops.remove(i);
-            out.push(Case { prefix: case.prefix.clone(), ops });
+            out.push(Case { prefix: case.prefix.clone(), birth: case.birth, ops });
         }
         // simplify arguments
         for i in 0..n {
@@ -693,7 +712,7 @@ impl Check for C12 {
             for s in simpler {
                 let mut ops = case.ops.clone();
                 ops[i] = s;
-                out.push(Case { prefix: case.prefix.clone(), ops });
+                out.push(Case { prefix: case.prefix.clone(), birth: case.birth, ops });
             }
         }
         out
